@@ -55,12 +55,15 @@ type ElkResult struct {
 	PanicStack  string
 	PanicPhase  string // "check" | "run"
 	Chunk       *vm.BytecodeFunction
+	Thread      *vm.Thread     // only with KeepThread
+	Pool        *vm.ThreadPool // only with KeepThread; caller closes
 }
 
 type ElkOpts struct {
 	Threads, Queue int // thread pool (default 2, 50)
 	Ctx            context.Context
 	NoReset        bool
+	KeepThread     bool // keep the VM thread and pool alive for later dynamic calls
 	Checker        *checker.Checker
 }
 
@@ -115,12 +118,19 @@ func RunElk(source string, o *ElkOpts) (res *ElkResult) {
 		q = 50
 	}
 	tp := vm.NewThreadPool(th, q, vm.WithStdout(stdout), vm.WithStderr(stderr), vm.WithAborter(aborter))
-	defer tp.Close()
+	if o.KeepThread {
+		res.Pool = tp
+	} else {
+		defer tp.Close()
+	}
 	v := vm.New(vm.WithStdout(stdout), vm.WithStderr(stderr), vm.WithThreadPool(tp), vm.WithAborter(aborter))
 	defer func() {
 		res.Stdout = stdout.String()
 		res.Stderr = stderr.String()
 	}()
+	if o.KeepThread {
+		res.Thread = v
+	}
 	r, e := v.InterpretTopLevel(chunk)
 	res.Result, res.Err = r, e
 	if !e.IsUndefined() {
